@@ -16,16 +16,42 @@ limitations under the License.
 
 package ahtree
 
-import "crypto/sha256"
+import (
+	"crypto/sha256"
+	"math/bits"
+)
 
 func VerifyInclusion(iproof [][sha256.Size]byte, i, j uint64, iLeaf, jRoot [sha256.Size]byte) bool {
 	if i > j || i == 0 || (i < j && len(iproof) == 0) {
 		return false
 	}
 
+	// the number of terms is determined by the claimed position and size,
+	// a proof with a different number of terms was generated for another position
+	if len(iproof) != inclusionProofLen(i, j) {
+		return false
+	}
+
 	ciRoot := EvalInclusion(iproof, i, j, iLeaf)
 
 	return jRoot == ciRoot
+}
+
+// inclusionProofLen returns the number of terms of the inclusion proof
+// for the i-th leaf in a tree with j leaves (1 <= i <= j)
+func inclusionProofLen(i, j uint64) int {
+	i1 := i - 1
+	j1 := j - 1
+
+	l := 0
+
+	for i1 != j1 {
+		i1 >>= 1
+		j1 >>= 1
+		l++
+	}
+
+	return l + bits.OnesCount64(j1)
 }
 
 func EvalInclusion(iproof [][sha256.Size]byte, i, j uint64, iLeaf [sha256.Size]byte) [sha256.Size]byte {
@@ -64,12 +90,21 @@ func VerifyConsistency(cproof [][sha256.Size]byte, i, j uint64, iRoot, jRoot [sh
 		return iRoot == jRoot
 	}
 
-	ciRoot, cjRoot := EvalConsistency(cproof, i, j)
+	ciRoot, cjRoot, complete := evalConsistency(cproof, i, j)
 
-	return iRoot == ciRoot && jRoot == cjRoot
+	// when i < j, the terms must exactly cover the levels up to the root of the larger tree,
+	// otherwise the proof was generated for different tree sizes
+	return (i == j || complete) && iRoot == ciRoot && jRoot == cjRoot
 }
 
 func EvalConsistency(cproof [][sha256.Size]byte, i, j uint64) ([sha256.Size]byte, [sha256.Size]byte) {
+	ciRoot, cjRoot, _ := evalConsistency(cproof, i, j)
+	return ciRoot, cjRoot
+}
+
+// evalConsistency additionally reports if the root of the larger tree was reached
+// exactly when the last term was consumed
+func evalConsistency(cproof [][sha256.Size]byte, i, j uint64) ([sha256.Size]byte, [sha256.Size]byte, bool) {
 	fn := i - 1
 	sn := j - 1
 
@@ -82,7 +117,13 @@ func EvalConsistency(cproof [][sha256.Size]byte, i, j uint64) ([sha256.Size]byte
 
 	b := [1 + sha256.Size*2]byte{NodePrefix}
 
+	complete := true
+
 	for _, h := range cproof[1:] {
+		if sn == 0 {
+			complete = false
+		}
+
 		if fn%2 == 1 || fn == sn {
 			copy(b[1:], h[:])
 
@@ -105,11 +146,11 @@ func EvalConsistency(cproof [][sha256.Size]byte, i, j uint64) ([sha256.Size]byte
 		sn >>= 1
 	}
 
-	return ciRoot, cjRoot
+	return ciRoot, cjRoot, complete && sn == 0
 }
 
 func VerifyLastInclusion(iproof [][sha256.Size]byte, i uint64, leaf, root [sha256.Size]byte) bool {
-	if i == 0 {
+	if i == 0 || len(iproof) != bits.OnesCount64(i-1) {
 		return false
 	}
 
